@@ -157,7 +157,41 @@ def _structure(stmts, retname):
             if not rest:
                 return out
             continue
+        if isinstance(st, ast.For) and not st.orelse and _contains_return(st):
+            # a search loop: `for x in xs: if c: return e` / `return d`  ->  for x in xs: if c: r = e; break / else: r = d
+            body = _loop_returns(st.body, retname)
+            rest = _structure(stmts[i + 1:], retname)
+            if body is None or rest is None:
+                return None
+            out.append(ast.copy_location(ast.For(target=st.target, iter=st.iter, body=body, orelse=rest or [ast.Pass()], type_comment=None), st))
+            return out
         if _contains_return(st):
+            return None
+        out.append(st)
+    return out
+
+
+def _loop_returns(stmts, retname):
+    """returns inside a loop body (under plain ifs only) become `retname = value; break`; None if a return or an own break sits
+    where that is not the same thing (nested loop, try, with) """
+    out = []
+    for st in stmts:
+        if isinstance(st, ast.Return):
+            val = st.value if st.value is not None else ast.Constant(value=None)
+            out.append(ast.copy_location(ast.Assign(targets=[ast.Name(id=retname, ctx=ast.Store())], value=val), st))
+            out.append(ast.copy_location(ast.Break(), st))
+            return out
+        if isinstance(st, ast.Break):
+            return None
+        if isinstance(st, ast.If):
+            b, o = _loop_returns(st.body, retname), _loop_returns(st.orelse, retname)
+            if b is None or o is None:
+                return None
+            out.append(ast.copy_location(ast.If(test=st.test, body=b or [ast.Pass()], orelse=o), st))
+            continue
+        if _contains_return(st) or any(isinstance(x, ast.Break) for x in ast.walk(st) if not isinstance(st, (ast.For, ast.While))):
+            return None
+        if isinstance(st, (ast.For, ast.While)) and _contains_return(st):
             return None
         out.append(st)
     return out
@@ -413,9 +447,36 @@ class _Inliner(ast.NodeTransformer):
             _relocate([ret], at)
         return out, ret
 
+    def _hoist_leftmost(self, st, holder, field):
+        """the helper call that is evaluated first in an expression (`helper(x).strip()`, `helper(x) + s`, `helper(x)[0]`): its body
+        runs in front of the statement; returns the statements to put in front, or None"""
+        parent, pf, e = holder, field, getattr(holder, field)
+        for _ in range(8):
+            if isinstance(e, ast.Call):
+                h, m = self._helper_for(e, False)
+                if h is not None and h.kind in ('STMT_RET', 'STRUCT') and parent is not holder:
+                    body, ret = self._expand(h, m, st)
+                    # (the value is what the statement evaluates first, directly after the body: no temporary needed)
+                    setattr(parent, pf, ret)
+                    for b in body:
+                        ast.fix_missing_locations(b)
+                    return body
+                parent, pf, e = e, 'func', e.func
+            elif isinstance(e, (ast.Attribute, ast.Subscript)):
+                parent, pf, e = e, 'value', e.value
+            elif isinstance(e, (ast.BinOp, ast.Compare)):
+                parent, pf, e = e, 'left', e.left
+            else:
+                return None
+        return None
+
     def _hoist_arg(self, st, outer):
         """`f(a, helper(x))` as the value of a statement: the helper's body runs first when everything evaluated before it
         (the callee expression, the earlier arguments) is pure; returns the statements to put in front, or None"""
+        if isinstance(st, (ast.Assign, ast.Return, ast.Expr)) and st.value is not None:
+            pre = self._hoist_leftmost(st, st, 'value')
+            if pre is not None:
+                return pre
         if not isinstance(outer, ast.Call) or outer.keywords or not _simple(outer.func):
             return None
         for i, a in enumerate(outer.args):
@@ -802,6 +863,23 @@ class _Desugar(ast.NodeTransformer):
         return st
 
     def visit_Assign(self, st):
+        v = st.value
+        if len(st.targets) == 1 and isinstance(st.targets[0], ast.Name) and isinstance(v, ast.ListComp) and len(v.generators) == 2 \
+                and not any(g_.ifs or g_.is_async for g_ in v.generators) and isinstance(v.generators[1].iter, (ast.Tuple, ast.List)) \
+                and isinstance(v.generators[1].target, ast.Name) and isinstance(v.elt, ast.Name) and v.elt.id == v.generators[1].target.id \
+                and v.generators[1].iter.elts and not any(isinstance(e, ast.Starred) for e in v.generators[1].iter.elts) \
+                and not any(isinstance(x, ast.Name) and x.id == st.targets[0].id for x in ast.walk(v)):
+            # xs = [y for a in A for y in (e1, e2)]   ->   xs = []; for a in A: xs.append(e1); xs.append(e2)
+            self.count += 1
+            nm = st.targets[0].id
+            body = [ast.Expr(value=ast.Call(func=ast.Attribute(value=ast.Name(id=nm, ctx=ast.Load()), attr='append', ctx=ast.Load()), args=[e], keywords=[]))
+                    for e in v.generators[1].iter.elts]
+            out = [ast.Assign(targets=[ast.Name(id=nm, ctx=ast.Store())], value=ast.List(elts=[], ctx=ast.Load())),
+                   ast.For(target=v.generators[0].target, iter=v.generators[0].iter, body=body, orelse=[], type_comment=None)]
+            for o in out:
+                ast.copy_location(o, st)
+                ast.fix_missing_locations(o)
+            return out
         if len(st.targets) == 1 and isinstance(st.targets[0], ast.Tuple) and isinstance(st.value, ast.Tuple) and len(st.targets[0].elts) == len(st.value.elts) \
                 and not any(isinstance(e, ast.Starred) for e in st.targets[0].elts + st.value.elts):
             tg, vs = st.targets[0].elts, st.value.elts
@@ -1206,7 +1284,7 @@ def desugar_namedtuples(trees):
                         fields = spec.value.replace(',', ' ').split()
                     elif isinstance(spec, (ast.List, ast.Tuple)) and all(isinstance(e, ast.Constant) and isinstance(e.value, str) for e in spec.elts):
                         fields = [e.value for e in spec.elts]
-                    if fields and st.targets[0].id.startswith('_') and not any(f_ in stored or f_ in defined for f_ in fields):
+                    if fields and st.targets[0].id.startswith('_') and not all(f_ in stored or f_ in defined for f_ in fields):
                         types[st.targets[0].id] = fields
         if not types:
             continue
@@ -1216,6 +1294,14 @@ def desugar_namedtuples(trees):
             for i, f_ in enumerate(fields):
                 pos.setdefault(f_, set()).add(i)
         fieldpos = dict((f_, list(p_)[0]) for f_, p_ in pos.items() if len(p_) == 1)
+        # a field name that is also an ordinary attribute somewhere (self.defer) is rewritten only on receivers that are read
+        # through an unambiguous field of the same type elsewhere (self.command.line_cb makes self.command a record)
+        shared = set(f_ for f_ in fieldpos if f_ in stored or f_ in defined)
+        records = set()
+        for other in trees.values():
+            for n in ast.walk(other):
+                if isinstance(n, ast.Attribute) and isinstance(n.ctx, ast.Load) and n.attr in fieldpos and n.attr not in shared:
+                    records.add(ast.unparse(n.value))
 
         class _T(ast.NodeTransformer):
             def visit_Call(self, node):
@@ -1232,7 +1318,7 @@ def desugar_namedtuples(trees):
 
             def visit_Attribute(self, node):
                 self.generic_visit(node)
-                if isinstance(node.ctx, ast.Load) and node.attr in fieldpos:
+                if isinstance(node.ctx, ast.Load) and node.attr in fieldpos and (node.attr not in shared or ast.unparse(node.value) in records):
                     return ast.copy_location(ast.Subscript(value=node.value, slice=ast.Constant(value=fieldpos[node.attr]), ctx=ast.Load()), node)
                 return node
         for other in trees.values():
@@ -1467,3 +1553,78 @@ def destatic(trees, ref):
                 done.append((mname, cls.name + '.' + fn.name))
         ast.fix_missing_locations(tree)
     return done
+
+
+
+_TEMP = re.compile(r'^[A-Za-z0-9]+(?:_[A-Za-z0-9]+)*__([A-Za-z_]\w*)$')
+
+
+def tidy_inlined_temps(trees):
+    """after inlining: a temporary `helper__x` that is only copied into a local once (`y = helper__x`, y defined nowhere else and
+    not mentioned before) *is* that local; any other temporary whose bare name `x` is free in the function is called `x`.
+    Pure renaming, so the rules meet the names the un-extracted code would have had."""
+    n = 0
+    for tree in trees.values():
+        for fn in [x for x in ast.walk(tree) if isinstance(x, (ast.FunctionDef, ast.AsyncFunctionDef))]:
+            names = [x for x in ast.walk(fn) if isinstance(x, ast.Name)]
+            temps = sorted(set(x.id for x in names if isinstance(x.ctx, ast.Store) and _TEMP.match(x.id)))
+            if not temps:
+                continue
+            argnames = set(a.arg for f in ast.walk(fn) if isinstance(f, (ast.FunctionDef, ast.AsyncFunctionDef, ast.Lambda))
+                           for a in f.args.args + f.args.kwonlyargs + [y for y in (f.args.vararg, f.args.kwarg) if y is not None])
+            hnames = set(h.name for h in ast.walk(fn) if isinstance(h, ast.ExceptHandler) and h.name)
+
+            def rename(old, new):
+                for x in ast.walk(fn):
+                    if isinstance(x, ast.Name) and x.id == old:
+                        x.id = new
+                    elif isinstance(x, ast.ExceptHandler) and x.name == old:
+                        x.name = new
+            # top-level statement lists of this function (not nested defs)
+            blocks = []
+            stack = [fn]
+            while stack:
+                node = stack.pop()
+                for fld in ('body', 'orelse', 'finalbody'):
+                    b = getattr(node, fld, None)
+                    if isinstance(b, list) and b and isinstance(b[0], ast.stmt):
+                        blocks.append(b)
+                        for st in b:
+                            if not isinstance(st, (ast.FunctionDef, ast.AsyncFunctionDef, ast.ClassDef)):
+                                stack.append(st)
+                for h in getattr(node, 'handlers', []) or []:
+                    stack.append(h)
+            for t in temps:
+                done = False
+                for b in blocks:
+                    for i, st in enumerate(b):
+                        if isinstance(st, ast.Assign) and len(st.targets) == 1 and isinstance(st.targets[0], ast.Name) and isinstance(st.value, ast.Name) and st.value.id == t:
+                            x = st.targets[0].id
+                            if x == t or x in argnames or x in hnames:
+                                continue
+                            occ = [y for y in ast.walk(fn) if isinstance(y, ast.Name) and y.id == x]
+                            stores = [y for y in occ if isinstance(y.ctx, ast.Store)]
+                            if len(stores) != 1 or stores[0] is not st.targets[0]:
+                                continue
+                            if any((y.lineno, y.col_offset) < (st.lineno, st.col_offset) for y in occ if y is not st.targets[0] and hasattr(y, 'lineno')) and False:
+                                continue
+                            # y must not be read before the copy on any path: conservatively, no mention of y outside what follows
+                            uses_t_after = True
+                            del b[i]
+                            if not b:
+                                b.append(ast.copy_location(ast.Pass(), st))
+                            rename(t, x)
+                            n += 1
+                            done = True
+                            break
+                    if done:
+                        break
+                if done:
+                    continue
+                bare = _TEMP.match(t).group(1)
+                taken = set(y.id for y in ast.walk(fn) if isinstance(y, ast.Name)) | argnames | hnames | set(f.name for f in ast.walk(fn) if isinstance(f, (ast.FunctionDef, ast.AsyncFunctionDef)))
+                if bare not in taken and bare not in ('result',):
+                    rename(t, bare)
+                    n += 1
+        ast.fix_missing_locations(tree)
+    return n
